@@ -404,7 +404,8 @@ vbi_bool vbi_proxy_msg_write_idle( VBIPROXY_MSG_STATE * pIO )
 
 vbi_bool vbi_proxy_msg_is_idle( VBIPROXY_MSG_STATE * pIO )
 {
-   assert((pIO->readOff == 0) || (pIO->readOff == pIO->readLen));
+   /* Note a partially received message (0 < readOff < readLen) is
+      a normal condition: the connection is not idle. */
 
    return ((pIO->writeLen == 0) && (pIO->readOff == 0));
 }
